@@ -39,6 +39,17 @@ class AbsImage(VAbs):
                 d = z3.simplify(_e.to_int(e.deref(a[0], s)))
                 return [VInt(self.c), VInt(self.h), VInt(self.w)][d.as_long()]
             return VFunc("tensor.size", f)
+        if name == "unique":
+            def f(a, k, s, e):
+                n = z3.Int(uid("n_unique"))
+                s.assume(n >= 0)
+                lab, cnt = fresh(TSeq(INT), "unique_labels"), fresh(TSeq(INT), "unique_counts")
+                lab, cnt = VSeq(n, lab.elem, INT), VSeq(n, cnt.elem, INT)
+                lab.kind = cnt.kind = z3.IntVal(1)
+                j = z3.Int(uid("j"))
+                s.assume(z3.ForAll([j], z3.Implies(z3.And(0 <= j, j < n), _e.to_int(cnt.elem(j)) >= 1)))
+                return VTuple([s.alloc(lab), s.alloc(cnt)])
+            return VFunc("tensor.unique", f)
         if name in ("unsqueeze", "squeeze", "clone", "float"):
             return VFunc("tensor." + name, lambda a, k, s, e: self)
         raise KeyError(name)
@@ -62,7 +73,28 @@ class AbsImage(VAbs):
         raise Unsupported(f"image.{name}")
 
 
-IMAGE = TAbs(lambda name, idx: AbsImage(z3.Int(name + "$w"), z3.Int(name + "$h")), "image")
+    def ite_with(self, c, o):
+        if self.a is None and o.a is None:
+            a = b = None
+        else:
+            one = lambda im: im.a if im.a is not None else VSeq(im.c, lambda k: VReal(1), REAL)
+            zero = lambda im: im.b if im.b is not None else VSeq(im.c, lambda k: VReal(0), REAL)
+            a, b = ite(c, one(self), one(o)), ite(c, zero(self), zero(o))
+        return AbsImage(z3.If(c, self.w, o.w), z3.If(c, self.h, o.h), z3.If(c, self.c, o.c), a, b, z3.If(c, self.ident, o.ident))
+
+
+def _sym_image(name, idx, aff=False):
+    im = AbsImage(z3.Int(name + "$w"), z3.Int(name + "$h"), z3.Int(name + "$c"))
+    if aff:
+        fa = z3.Function(name + "$scale", z3.IntSort(), z3.RealSort())
+        fb = z3.Function(name + "$shift", z3.IntSort(), z3.RealSort())
+        im.a = VSeq(im.c, lambda k: VReal(fa(_e.to_int(k) if not z3.is_expr(k) else k)), REAL)
+        im.b = VSeq(im.c, lambda k: VReal(fb(_e.to_int(k) if not z3.is_expr(k) else k)), REAL)
+    return im
+
+
+IMAGE = TAbs(lambda name, idx: _sym_image(name, idx), "image")
+IMAGE_AFF = TAbs(lambda name, idx: _sym_image(name, idx, True), "image-with-value-map")
 
 
 def _img(eng, v, st):
@@ -72,11 +104,22 @@ def _img(eng, v, st):
     return v
 
 
-def _record(st, *terms):
-    if "g_geo" in st.ghost:
-        cur = st.ghost["g_geo"]
-        tup = VTuple([VInt(t) for t in terms])
-        st.ghost["g_geo"] = VSeq.of((cur.concrete or []) + [tup], typeof(tup))
+GEO = ["geo_n", "geo_k", "geo_a", "geo_b", "geo_c", "geo_d", "pgeo_k", "pgeo_a", "pgeo_b", "pgeo_c", "pgeo_d"]
+GEO_GHOST = {g: (INT, "0") for g in GEO}
+from .absobj import GHOST_METHODS as _GM
+for _n in ("crop", "resized_crop", "pad", "resize", "hflip", "_pad_image"):
+    _GM[_n] = sorted(set(_GM.get(_n, [])) | set(GEO))
+
+
+def _record(st, k, a, b, c, d):
+    """ghost: the integer arguments of the last (geo_*) and the previous (pgeo_*) geometric call, and the number of calls"""
+    if "geo_n" not in st.ghost:
+        return
+    for x in "kabcd":
+        st.ghost["pgeo_" + x] = st.ghost["geo_" + x]
+    for x, t in zip("kabcd", (k, a, b, c, d)):
+        st.ghost["geo_" + x] = VInt(t)
+    st.ghost["geo_n"] = VInt(st.ghost["geo_n"].t + 1)
 
 
 def _arg(args, kwargs, pos, name):
@@ -187,7 +230,9 @@ def _log(args, kwargs, st, eng):
 
 def _uf(name):
     def f(args, kwargs, st, eng):
-        return VReal(z3.Function(name, z3.RealSort(), z3.RealSort())(_e.to_real(eng.deref(args[0], st))))
+        r = z3.Function(name, z3.RealSort(), z3.RealSort())(_e.to_real(eng.deref(args[0], st)))
+        st.assume(r > 0)          # exp(x) > 0
+        return VReal(r)
     return f
 
 
@@ -210,5 +255,7 @@ def install_spec_builtins(eng):
     eng.spec_builtins["Width"] = VFunc("Width", lambda a, k, s, e: VInt(e.deref(a[0], s).w))
     eng.spec_builtins["Height"] = VFunc("Height", lambda a, k, s, e: VInt(e.deref(a[0], s).h))
     eng.spec_builtins["IsImage"] = VFunc("IsImage", lambda a, k, s, e: VBool(isinstance(e.deref(a[0], s), AbsImage)))
+    eng.spec_builtins["Channels"] = VFunc("Channels", lambda a, k, s, e: VInt(e.deref(a[0], s).c))
+    eng.spec_builtins["IsPlain"] = VFunc("IsPlain", lambda a, k, s, e: VBool(e.deref(a[0], s).a is None))
     eng.spec_builtins["ScaleOf"] = VFunc("ScaleOf", lambda a, k, s, e: e.deref(a[0], s).a.elem(_e.to_int(a[1])))
     eng.spec_builtins["ShiftOf"] = VFunc("ShiftOf", lambda a, k, s, e: e.deref(a[0], s).b.elem(_e.to_int(a[1])))
